@@ -149,6 +149,7 @@ Proof.
   end.
   destruct (rd _ _) as [last|]; [|apply wf_c0; reflexivity].
   destruct (negb (N.eqb last 44)); [apply wf_c0; reflexivity|].
+  destruct (scgi_block_terminated _ _ _) as [[|]|]; [|apply wf_c0; reflexivity|apply wf_c0; reflexivity].
   destruct (scgi_env _ _ _ _ _) as [e|]; [|apply wf_c0; reflexivity].
   destruct (content_start _ _ _) as [a cnt|code cnt|a n setup|] eqn:CS.
   - apply content_start_handled in CS. destruct CS as (_ & -> & _). apply wf_ok_last.
@@ -165,6 +166,7 @@ Proof.
   end.
   destruct (rd _ _) as [last|]; [|eexists; split; [reflexivity|discriminate]].
   destruct (negb (N.eqb last 44)); [eexists; split; [reflexivity|discriminate]|].
+  destruct (scgi_block_terminated _ _ _) as [[|]|]; [|eexists; split; [reflexivity|discriminate]|eexists; split; [reflexivity|discriminate]].
   destruct (scgi_env _ _ _ _ _) as [e|]; [|eexists; split; [reflexivity|discriminate]].
   destruct (content_start _ _ _) as [a cnt|code cnt|a n setup|]; try (eexists; split; [reflexivity|discriminate]).
   destruct (_ <? n); eexists; split; try reflexivity; discriminate.
@@ -220,21 +222,20 @@ Proof.
     specialize (K rest3). destruct (k rest3) as [l c]. cbn [fst snd] in *. apply wf_ok_cons. exact K.
   - apply wf_c0. reflexivity.
 Qed.
-Lemma fcgi_conn_wf fuel : forall s alloc, wf (fst (fcgi_conn fuel s alloc)) (snd (fcgi_conn fuel s alloc)).
+Lemma fcgi_conn_wf fuel : forall s, wf (fst (fcgi_conn fuel s)) (snd (fcgi_conn fuel s)).
 Proof.
-  induction fuel as [|f IH]; intros s alloc; cbn [fcgi_conn]; [apply wf_c0; reflexivity|].
+  induction fuel as [|f IH]; intros s; cbn [fcgi_conn]; [apply wf_c0; reflexivity|].
   destruct (read_record s) as [[[h content] rest]|]; [|apply wf_c0; reflexivity].
   cbv zeta.
   destruct (negb (f_version h =? 1)); [apply wf_c0; reflexivity|].
   destruct (f_type h =? 9).
-  { destruct (negb _); [apply wf_c0; reflexivity|].
-    destruct (parse_pairs _ _ _ _ _) as [|acc|acc]; try (apply wf_c0; reflexivity).
-    match goal with |- context[fcgi_conn f rest ?a] => specialize (IH rest a); destruct (fcgi_conn f rest a) as [l c] end.
+  { destruct (parse_pairs_all content) as [|acc|acc]; try (apply wf_c0; reflexivity).
+    specialize (IH rest). destruct (fcgi_conn f rest) as [l c].
     cbn [fst snd] in *. apply wf_free_cons; [reflexivity|reflexivity|exact IH]. }
   destruct (negb (f_type h =? 1)); [apply IH|].
   destruct (negb (Z.of_nat (length content) =? 8)); [apply wf_c0; reflexivity|].
   destruct (negb (_ =? 1)).
-  { specialize (IH rest true). destruct (fcgi_conn f rest true) as [l c].
+  { specialize (IH rest). destruct (fcgi_conn f rest) as [l c].
     cbn [fst snd] in *. apply wf_free_cons; [reflexivity|reflexivity|exact IH]. }
   destruct (params_loop _ _ _ _) as [[body rest1]|]; [|apply wf_c0; reflexivity].
   destruct (env_of_params body) as [e|]; [|apply wf_c0; reflexivity].
@@ -261,22 +262,21 @@ Proof.
     specialize (K rest3 SL). destruct (k rest3) as [l c]. cbn [fst] in *. intros [H|H]; [discriminate|auto].
   - apply single_no_fuel; discriminate.
 Qed.
-Lemma fcgi_conn_no_fuel fuel : forall s alloc, (length s < fuel)%nat -> ~ In IFuel (fst (fcgi_conn fuel s alloc)).
+Lemma fcgi_conn_no_fuel fuel : forall s, (length s < fuel)%nat -> ~ In IFuel (fst (fcgi_conn fuel s)).
 Proof.
-  induction fuel as [|f IH]; intros s alloc L; [lia|]. cbn [fcgi_conn].
+  induction fuel as [|f IH]; intros s L; [lia|]. cbn [fcgi_conn].
   destruct (read_record s) as [[[h content] rest]|] eqn:R; [|apply single_no_fuel; discriminate].
   apply read_record_shrinks in R.
   cbv zeta.
   destruct (negb (f_version h =? 1)); [apply single_no_fuel; discriminate|].
   destruct (f_type h =? 9).
-  { destruct (negb _); [apply single_no_fuel; discriminate|].
-    destruct (parse_pairs _ _ _ _ _) as [|acc|acc]; try (apply single_no_fuel; discriminate).
-    match goal with |- context[fcgi_conn f rest ?a] => specialize (IH rest a); destruct (fcgi_conn f rest a) as [l c] end.
+  { destruct (parse_pairs_all content) as [|acc|acc]; try (apply single_no_fuel; discriminate).
+    specialize (IH rest). destruct (fcgi_conn f rest) as [l c].
     cbn [fst] in *. intros [H|H]; [discriminate|]. apply IH; [lia|exact H]. }
   destruct (negb (f_type h =? 1)); [apply IH; lia|].
   destruct (negb (Z.of_nat (length content) =? 8)); [apply single_no_fuel; discriminate|].
   destruct (negb (_ =? 1)).
-  { specialize (IH rest true). destruct (fcgi_conn f rest true) as [l c].
+  { specialize (IH rest). destruct (fcgi_conn f rest) as [l c].
     cbn [fst] in *. intros [H|H]; [discriminate|]. apply IH; [lia|exact H]. }
   destruct (params_loop _ _ _ _) as [[body rest1]|] eqn:PL; [|apply single_no_fuel; discriminate].
   apply params_loop_shrinks in PL.
